@@ -577,6 +577,14 @@ impl Quantity {
             .add_point_zero(false)
             .force_no_e_notation()
             .round();
+        let value = self.value.to_f64();
+        if value.abs() < 1.0 {
+            // the same problem for a value in [0.5, 1) * 10^-precision, e.g. 0.0094 with two
+            // decimal digits: round small values ourselves.
+            let scale = 10f64.powi(precision.into());
+            let rounded = Quantity::new_f64((value * scale).round() / scale, self.unit.clone());
+            return rounded.pretty_print_internal(&FormatOptions::default(), Some(dtoa_config));
+        }
         self.pretty_print_internal(&FormatOptions::default(), Some(dtoa_config))
     }
 
